@@ -1,0 +1,15 @@
+//go:build !verif
+
+package schema
+
+// No-op twins of the C19 accounting hooks (see verif_c19_on.go, build tag `verif`).
+
+func verifC19Copy(int)             {}
+func verifC19Close()               {}
+func verifC19ChildNew(any, int)    {}
+func verifC19ChildClose(any, int)  {}
+func verifC19ChildRecv(any, error) {}
+func verifC19StreamNew(any, int)   {}
+func verifC19StreamCloseRecv(any)  {}
+func verifC19StreamCloseSend(any)  {}
+func verifC19StreamRecv(any, bool) {}
